@@ -1,6 +1,7 @@
 package main
 
 import (
+	"crypto/sha256"
 	"encoding/hex"
 	"fmt"
 	"math/big"
@@ -264,6 +265,8 @@ func cmdDirected(quick bool) {
 		rec.Kind = "nan-key"
 		hlib.Emit(rec)
 	}
+	// (3s) the [short]-prefixed positions of the protocol v2 collection format, each on its own at the size boundary
+	v2sizes()
 	// (3a') a struct used as a CQL map, in every declaration mode of structLayout (tags vs names, reversed declaration order): the encoder walks
 	// the struct in declaration order
 	{
@@ -341,4 +344,84 @@ func specDecode() {
 		hlib.Emit(&specRec{Kind: "specdecode", Id: fmt.Sprintf("s%d", i), Ver: 4, TypeCoq: c.t.coq(), TypeCql: c.t.dt.AsCql(), Hex: c.hex, What: c.what,
 			Expect: c.expect.canon().coq(), DecClass: class, DecCoq: coq, DecNull: wn, Err: e})
 	}
+}
+
+type sizeRec struct {
+	Kind     string `json:"kind"` // v2size
+	Id       string `json:"id"`
+	Ver      int    `json:"ver"`
+	TypeCql  string `json:"type_cql"`
+	TypeCoq  string `json:"type_coq"`
+	Position string `json:"position"` // list-element | set-element | map-key | map-value
+	Elem     string `json:"elem"`     // blob | varchar
+	Size     int    `json:"size"`     // bytes of the long element (byte 'a' repeated); every other element is the single byte 'k'
+	ValCoq   string `json:"val_coq"`  // with (repeat 97 (Z.to_nat size)) for the long element
+	EncClass string `json:"enc_class"`
+	EncLen   int    `json:"enc_len"`
+	EncSha   string `json:"enc_sha256"`
+	RtEqual  bool   `json:"rt_equal"` // enc ok: decoded into *interface{} AND into the same representation, both equal to the value
+	Err      string `json:"err,omitempty"`
+}
+
+// v2sizes: protocol v2 writes every list element, set element, map key and map value with a 2-byte length.  Each of the four positions, for
+// blob and for varchar, carries an element of 65535 bytes (the largest expressible: accepted), 65536 and 70000 bytes (refused: the length
+// would wrap) while every other element is one byte long; 65536 is also run in v4 (4-byte lengths: accepted).
+func v2sizes() {
+	n := 0
+	for _, en := range []string{"SBlob", "SVarchar"} {
+		et := scalarT(en)
+		for _, pos := range []string{"list-element", "set-element", "map-key", "map-value"} {
+			for _, size := range []int{65535, 65536, 70000} {
+				vers := []primitive.ProtocolVersion{primitive.ProtocolVersion2}
+				if size == 65536 {
+					vers = append(vers, primitive.ProtocolVersion4)
+				}
+				long, short := aBytes(bytesOf('a', size)), aBytes([]byte("k"))
+				longCoq := fmt.Sprintf("(VBytes (repeat 97 (Z.to_nat %d)))", size)
+				var t *ctype
+				var a *aval
+				var valCoq string
+				switch pos {
+				case "list-element":
+					t, a, valCoq = listT(et), &aval{kind: "list", elems: []*aval{short, long, short}}, "(VList ["+short.coq()+"; "+longCoq+"; "+short.coq()+"])"
+				case "set-element":
+					t, a, valCoq = setT(et), &aval{kind: "list", elems: []*aval{long}}, "(VList ["+longCoq+"])"
+				case "map-key":
+					t, a, valCoq = mapT(et, et), &aval{kind: "map", pairs: [][2]*aval{{long, short}}}, "(VMap [("+longCoq+", "+short.coq()+")])"
+				default:
+					t, a, valCoq = mapT(et, et), &aval{kind: "map", pairs: [][2]*aval{{short, long}}}, "(VMap [("+short.coq()+", "+longCoq+")])"
+				}
+				g := &gen{r: rand.New(rand.NewSource(1))}
+				r := g.plan(t, []*aval{a}, false, true)
+				for _, ver := range vers {
+					rec := &sizeRec{Kind: "v2size", Id: fmt.Sprintf("z%d", n), Ver: int(ver), TypeCql: t.dt.AsCql(), TypeCoq: t.coq(), Position: pos,
+						Elem: et.dt.AsCql(), Size: size, ValCoq: valCoq}
+					n++
+					full := runCase(rec.Id, t, r, a, ver)
+					rec.EncClass, rec.Err = full.EncClass, full.Err
+					if full.EncClass == "ok" {
+						b, _ := hex.DecodeString(full.EncHex)
+						sum := sha256.Sum256(b)
+						rec.EncLen, rec.EncSha = len(b), hex.EncodeToString(sum[:])
+						rec.RtEqual = full.DecClass == "ok" && full.RtEqual && full.SameClass == "ok" && full.SameEqual && full.SrcIntact && full.Enc2Same
+						if !rec.RtEqual {
+							rec.Err = fmt.Sprintf("untyped: %s equal=%v; same representation: %s equal=%v; source intact=%v; %s", full.DecClass, full.RtEqual, full.SameClass, full.SameEqual, full.SrcIntact, full.Err)
+						}
+					}
+					if len(rec.Err) > 300 {
+						rec.Err = rec.Err[:300]
+					}
+					hlib.Emit(rec)
+				}
+			}
+		}
+	}
+}
+
+func bytesOf(b byte, n int) []byte {
+	r := make([]byte, n)
+	for i := range r {
+		r[i] = b
+	}
+	return r
 }
